@@ -414,3 +414,34 @@ def parents (w : World) : Nat → PostM → List Item × Option PostM
           (.post parent :: r.1, r.2)
 
 end Pub
+
+namespace Pub
+open Obj
+
+/-- The JRD part of `client.ResolveWebfinger`: the `href` of the first link with `rel = "self"`
+    and an ActivityPub media type. -/
+def webfingerLinks : List JVal → Except Unit Str
+  | [] => .error ()                      -- "actor not found in webfinger listing"
+  | el :: rest =>
+    match el with
+    | .obj o =>
+      match getString o "rel".toList with
+      | .error _ => .error ()
+      | .ok rel =>
+        if rel ≠ "self".toList then webfingerLinks rest
+        else match getMediaType o "type".toList with
+          | .error .absent => webfingerLinks rest
+          | .error .wrong => .error ()
+          | .ok mt =>
+            if !(mt.matchesAny ["application/activity+json".toList, "application/ld+json".toList]) then webfingerLinks rest
+            else match getString o "href".toList with
+              | .ok href => .ok href
+              | .error _ => .error ()
+    | _ => .error ()                     -- "unrecognized type … found in webfinger response"
+
+def webfingerLink (response : O) : Except Unit Str :=
+  match getList response "links".toList with
+  | .error _ => .error ()
+  | .ok links => webfingerLinks links
+
+end Pub
